@@ -365,7 +365,23 @@ def r5_builders_not_crosswired(ctx):
                 ok_all = False
                 continue
             star = [k for k in v.keywords if k.arg is None]
-            if (len(star) == 1 and dotted(star[0].value) == p and not v.args and len(v.keywords) == 1) or (isinstance(v.func, ast.Attribute) and v.func.attr == "from_dict" and len(v.args) == 1 and dotted(v.args[0]) == p):
+
+            def _whole(e) -> bool:
+                # the parameter itself, or `{} if p is None else p` / `p if p is not None else {}` / `p or {}`
+                if dotted(e) == p:
+                    return True
+                if isinstance(e, ast.IfExp):
+                    t = norm(e.test)
+                    a_, b_ = e.body, e.orelse
+                    if t == f"{p} is None" and norm(a_) in ("{}", "dict()") and dotted(b_) == p:
+                        return True
+                    if t in (f"{p} is not None", p) and norm(b_) in ("{}", "dict()") and dotted(a_) == p:
+                        return True
+                if isinstance(e, ast.BoolOp) and isinstance(e.op, ast.Or) and len(e.values) == 2 and dotted(e.values[0]) == p and norm(e.values[1]) in ("{}", "dict()"):
+                    return True
+                return False
+
+            if (len(star) == 1 and _whole(star[0].value) and not v.args and len(v.keywords) == 1) or (isinstance(v.func, ast.Attribute) and v.func.attr == "from_dict" and len(v.args) == 1 and dotted(v.args[0]) == p):
                 continue  # whole mapping forwarded
             # hand-picking (a keyword mapping built key by key, `kw = {...}; kw["k"] = ..; Cls(**kw)`, is read as its display)
             from sa.astutil import dict_display
@@ -426,6 +442,7 @@ def r5_builders_not_crosswired(ctx):
             want = {"geometry": f"to_{pre}_geometry", "environment": "to_environment", "characteristics": f"to_{pre}_characteristics"}
             for k, b in want.items():
                 a = kw(v, k)
+                a = expand(f, a) if isinstance(a, ast.Name) else a  # a named intermediate
                 ok = ok and isinstance(a, ast.Call) and call_name(a) == b
         ctx.check(ok, f.qual + "#sub-builders", f"{cls} built from its own geometry/environment/characteristics builders" if ok else f"{fn} uses another detector type's builders", where=f, node=rets[0] if rets else f.node)
 
